@@ -106,29 +106,40 @@ class Interp:
         self.max_paths = max_paths
 
     # ------------------------------------------------------------------ evaluation
+    def _lookup_raw(self, p, key):
+        if key in p.env:
+            return p.env[key]
+        if key in self.inputs and key not in p.clobbered:
+            return self.inputs[key]
+        return None
+
     def canon(self, p, key):
-        """Rewrite the leading pointer variable of an access path through recorded aliases and
-        abstract objects: with x = Alias('a->b') the path x->f is a->b->f; with x = Ptr('S') it is S->f."""
+        """Rewrite an access path through recorded aliases and abstract objects: with x = Alias('a->b')
+        the path x->f is a->b->f; with x = Ptr('S') it is S->f; with S->g = Ptr('T') the path S->g->h is T->h."""
         if key is None:
             return None
-        for _ in range(6):
+        for _ in range(8):
             k = key.find("->")
             if k <= 0:
                 break
             base = key[:k]
-            if base in p.env:
-                v = p.env[base]
-            elif base in self.inputs and base not in p.clobbered:
-                v = self.inputs[base]
-            else:
-                v = None
+            v = self._lookup_raw(p, base)
             if isinstance(v, Alias):
                 key = v.key + key[k:]
-            elif isinstance(v, Ptr) and isinstance(v.what, str) and v.what[:4] not in ("str:", "fn:", "arr:") \
-                    and not v.what.startswith("fn:") and v.what != base:
+                continue
+            if isinstance(v, Ptr) and isinstance(v.what, str) and v.what[:4] not in ("str:", "arr:") and not v.what.startswith("fn:") \
+                    and v.what != base:
                 key = v.what + key[k:]
-            else:
-                break
+                continue
+            # second component: S->g where S->g holds an abstract object
+            k2 = key.find("->", k + 2)
+            if k2 > 0:
+                pre = key[:k2]
+                v2 = self._lookup_raw(p, pre)
+                if isinstance(v2, Ptr) and isinstance(v2.what, str) and v2.what[:4] not in ("str:", "arr:") and not v2.what.startswith("fn:"):
+                    key = v2.what + key[k2:]
+                    continue
+            break
         return key
 
     def read(self, p, key):
